@@ -695,6 +695,21 @@ class Interp:
         # constructor functions
         if "ctor" in fn:
             return [(st, ("adt", fn["ctor"]["adt"], fn["ctor"]["variant"], tuple(args)))]
+        if self.tsub and fn.get("trait") and not fn.get("resolved_local") and fn.get("self_ty") is not None:
+            # a trait method called on a generic parameter (`T::unwrap_from(v)` inside `fn extract<T: Payload>`), in a body
+            # that is being interpreted for a concrete T: the crate-local impl for that type is what runs
+            raw_self = self.f.ty_s(fn["self_ty"])
+            self_s = self.subst(raw_self)
+            if self_s != raw_self:
+                targs = [self.subst(self.f.ty_s(t_)) for t_ in (fn.get("args") or [])[1:]]
+                cands = [d_ for d_, b_ in self.f.bodies.items() if b_.get("name") == fn["name"] and not b_.get("parent")
+                         and (b_.get("impl") or {}).get("trait") == fn["trait"] and (b_.get("impl") or {}).get("self_s") == self_s
+                         and [x_ for x_ in ((b_.get("impl") or {}).get("trait_args") or [])] == targs[:len((b_.get("impl") or {}).get("trait_args") or [])]]
+                impl_path = cands[0] if len(cands) == 1 else None
+                if impl_path:
+                    fn = dict(fn, resolved=impl_path, resolved_full=impl_path, resolved_local=True, resolved_kind="Item", gparams=[], resolved_args=[])
+                    name, path = impl_path, impl_path
+                    self.last_callee = name
         m = self.model(st, fn, name, path, args, depth, stack)
         if m is not None:
             return m
